@@ -297,90 +297,28 @@ func drawDelta(rt *rapid.T, label string) deltaSpec {
 }
 
 type stepSpec struct {
-	Move  string        `json:"move"` // rot | frac | jump | stay | dial
+	Move  string        `json:"move"` // rot | frac | jump | stay
 	Delta deltaSpec     `json:"delta,omitempty"`
 	Frac  int           `json:"frac,omitempty"` // permille of the way to the next rotation
 	Jump  time.Duration `json:"jump,omitempty"`
-	Dial  dialSpec      `json:"dial,omitempty"`
-	Act   string        `json:"act"`            // none | restart | close | twin | learn
-	From  string        `json:"from,omitempty"` // learn: A | B (the listener the address is learnt from)
-}
-
-// dialSpec aims the clock at an instant that is defined relative to the instant at which
-// some dialer LEARNT the listener's address (the statement: "an address learned at any
-// time keeps verifying through the current and the following certificate period"):
-//
-//	learn    learn instant + K periods + D
-//	uni      learn instant + D, D uniform over 2.5 periods
-//	cur-end  end of the certificate period in which the address was learnt + D
-//	fol-end  end of the FOLLOWING certificate period (= end of the promise) + D
-//
-// (time only moves forward: an instant that has passed already means "dial now").
-type dialSpec struct {
-	Who   int           `json:"who"` // which learner (modulo the candidates at that moment)
-	Base  string        `json:"base"`
-	K     int           `json:"k,omitempty"`
-	D     time.Duration `json:"d,omitempty"`
-	Class string        `json:"class"`
-}
-
-func drawDial(rt *rapid.T) dialSpec {
-	d := dialSpec{Who: rapid.IntRange(0, 11).Draw(rt, "dialWho")}
-	small := func() (string, time.Duration) {
-		switch rapid.IntRange(0, 5).Draw(rt, "dialSmall") {
-		case 0:
-			return "-1ms", -time.Millisecond
-		case 1:
-			return "-1ns", -1
-		case 2:
-			return "+1ns", 1
-		case 3:
-			return "+1ms", time.Millisecond
-		default:
-			return "", 0
-		}
-	}
-	switch c := rapid.IntRange(0, 9).Draw(rt, "dialBase"); {
-	case c <= 2:
-		d.Base, d.K = "learn", rapid.IntRange(0, 2).Draw(rt, "dialK")
-		var n string
-		n, d.D = small()
-		d.Class = fmt.Sprintf("learn+%dp%s", d.K, n)
-	case c <= 4:
-		d.Base = "uni"
-		d.D = time.Duration(rapid.Int64Range(0, int64(5*period/2/time.Millisecond)).Draw(rt, "dialUni")) * time.Millisecond
-		d.Class = fmt.Sprintf("learn+uniform%d", int(d.D/(period/2)))
-	case c <= 6:
-		d.Base = "cur-end"
-		var n string
-		n, d.D = small()
-		d.Class = "cur-end" + n
-	default:
-		d.Base = "fol-end"
-		var n string
-		n, d.D = small()
-		d.Class = "fol-end" + n
-	}
-	return d
+	Act   string        `json:"act"` // none | restart | close | twin
 }
 
 func (s stepSpec) class() string {
 	switch s.Move {
 	case "rot":
-		return "rot:" + s.Delta.Class + "/" + s.Act + s.From
+		return "rot:" + s.Delta.Class + "/" + s.Act
 	case "jump":
-		return fmt.Sprintf("jump%d/%s", int(s.Jump/period), s.Act+s.From)
+		return fmt.Sprintf("jump%d/%s", int(s.Jump/period), s.Act)
 	case "frac":
-		return fmt.Sprintf("frac%d/%s", s.Frac/250, s.Act+s.From)
-	case "dial":
-		return "dial:" + s.Dial.Class + "/" + s.Act + s.From
+		return fmt.Sprintf("frac%d/%s", s.Frac/250, s.Act)
 	}
-	return s.Move + "/" + s.Act + s.From
+	return s.Move + "/" + s.Act
 }
 
 func drawStep(rt *rapid.T) stepSpec {
 	var s stepSpec
-	switch m := rapid.IntRange(0, 12).Draw(rt, "move"); {
+	switch m := rapid.IntRange(0, 9).Draw(rt, "move"); {
 	case m <= 5:
 		s.Move, s.Delta = "rot", drawDelta(rt, "step")
 	case m <= 7:
@@ -388,15 +326,10 @@ func drawStep(rt *rapid.T) stepSpec {
 	case m == 8:
 		s.Move = "jump"
 		s.Jump = time.Duration(rapid.Int64Range(0, int64(5*period/2/time.Millisecond)).Draw(rt, "jump")) * time.Millisecond
-	case m == 9:
-		s.Move = "stay"
 	default:
-		s.Move, s.Dial = "dial", drawDial(rt)
+		s.Move = "stay"
 	}
-	s.Act = rapid.SampledFrom([]string{"none", "none", "restart", "restart", "restart", "close", "twin", "twin", "learn", "learn", "learn"}).Draw(rt, "act")
-	if s.Act == "learn" {
-		s.From = rapid.SampledFrom([]string{"A", "B"}).Draw(rt, "learnFrom")
-	}
+	s.Act = rapid.SampledFrom([]string{"none", "none", "restart", "restart", "restart", "close", "twin", "twin"}).Draw(rt, "act")
 	return s
 }
 
@@ -443,21 +376,6 @@ type advert struct {
 	who  string
 	kind string // "addr" | "serialized"
 	hs   hashSet
-	srcs map[*mgr]bool // every manager INSTANCE that handed out exactly this advertisement in period idx
-}
-
-// learner is a dialer that learnt the listener's address at some instant and dials it
-// later (at every sampled instant from then on).
-type learner struct {
-	id        int
-	src       *mgr // the running listener the address was taken from
-	fromB     bool // the restartable listener (a later dial may find a restarted instance)
-	at        time.Time
-	idx       int       // certificate period at the learn instant
-	rot1      time.Time // end of that period (rotation instant NotAfter-skew of the certificate served at the learn instant)
-	srcRolls  int       // rollovers the source had performed before the address was learnt
-	addr      hashSet
-	lastDialQ int // evidence only
 }
 
 type mgr struct {
@@ -466,8 +384,6 @@ type mgr struct {
 	created time.Time
 	lastSum [32]byte
 	rolled  bool
-	rolls   int  // rollovers observed on this instance
-	closed  bool
 	probe   bool // throw-away manager used to learn the boundaries: judged on its own only
 }
 
@@ -478,7 +394,6 @@ type world struct {
 	open    []*mgr
 	periods []*periodRec
 	adverts map[string]*advert // deduplicated by (period, kind, hash set)
-	learners []*learner
 
 	// evidence
 	rollovers      int
@@ -490,8 +405,6 @@ type world struct {
 	exactRot       int
 	confirmMissing int // informational: adverts whose hashes a manager could not all confirm (fresh managers, by design)
 	confirmChecked int
-	dialsRunning   int // dials against the still-running listener within the promised two periods
-	dialsAcross    int // ... of which at least one rollover after the learn instant
 	labels         map[string]bool
 }
 
@@ -512,44 +425,11 @@ func (w *world) newMgr(name string) *mgr {
 		w.a = m
 	}
 	w.sample(m, "right after creation")
-	if !m.probe && !strings.HasPrefix(name, "twin") {
-		// an address can be learnt as soon as the constructor has returned
-		w.learn(m, "right after creation")
-	}
 	return m
-}
-
-// dialTarget turns a dialSpec into an instant. The learner is chosen among those whose
-// promise is still running (source listener alive, learnt in the current or the
-// previous period), if there is one.
-func (w *world) dialTarget(d dialSpec) time.Time {
-	cur := w.periods[len(w.periods)-1]
-	var cand []*learner
-	for _, l := range w.learners {
-		if !l.src.closed && cur.idx-l.idx <= 1 {
-			cand = append(cand, l)
-		}
-	}
-	if len(cand) == 0 {
-		cand = w.learners
-	}
-	l := cand[d.Who%len(cand)]
-	switch d.Base {
-	case "learn":
-		return l.at.Add(time.Duration(d.K) * period).Add(d.D)
-	case "uni":
-		return l.at.Add(d.D)
-	case "cur-end":
-		return l.rot1.Add(d.D)
-	case "fol-end":
-		return l.rot1.Add(period).Add(d.D)
-	}
-	panic("unknown dial base " + d.Base)
 }
 
 func (w *world) closeMgr(m *mgr) {
 	m.h.Close()
-	m.closed = true
 	for i, o := range w.open {
 		if o == m {
 			w.open = append(w.open[:i], w.open[i+1:]...)
@@ -646,7 +526,6 @@ func (w *world) sample(m *mgr, why string) {
 	}
 	if m.lastSum != sum && m.lastSum != ([32]byte{}) {
 		m.rolled = true
-		m.rolls++
 	}
 	m.lastSum = sum
 
@@ -659,8 +538,8 @@ func (w *world) sample(m *mgr, why string) {
 	if !addr.hasSHA256(sum) {
 		rt.Fatalf("%s: AddrComponent() %v lacks the sha2-256 hash %x of the served certificate", at, addr, sum[:6])
 	}
-	w.record(m, &advert{idx: cur.idx, at: now, who: m.name, kind: "addr", hs: addr})
-	w.record(m, &advert{idx: cur.idx, at: now, who: m.name, kind: "serialized", hs: ser})
+	w.record(&advert{idx: cur.idx, at: now, who: m.name, kind: "addr", hs: addr})
+	w.record(&advert{idx: cur.idx, at: now, who: m.name, kind: "serialized", hs: ser})
 
 	// every advertisement of this and of the previous period verifies the served leaf NOW
 	for _, ad := range w.adverts {
@@ -675,23 +554,10 @@ func (w *world) sample(m *mgr, why string) {
 			rt.Fatalf("%s: the %s advertisement %v taken from %s at %s in %s certificate period does not verify the certificate served now [%s, %s] sha256=%x: %v",
 				at, ad.kind, ad.hs, ad.who, ts(ad.at), what, ts(cert.NotBefore), ts(cert.NotAfter), sum[:6], err)
 		}
-		// Would a dialer that learnt this address get every hash confirmed by m now? (The dialer
-		// completes only if the server confirms EVERY hash of the dialled address.)
-		//  - m itself handed out this address in this or the previous period and has been running
-		//    ever since: the statement promises that the address "keeps verifying through the
-		//    current and the following certificate period", so m must confirm all of it.
-		//  - otherwise (address from another instance, e.g. before a restart): informational.
+		// informational: would a dialer that learnt this address get every hash confirmed by m now?
 		if ad.kind == "addr" {
 			w.confirmChecked++
 			if !ser.superset(ad.hs) {
-				if ad.srcs[m] {
-					what := "the same"
-					if ad.idx != cur.idx {
-						what = "the previous"
-					}
-					rt.Fatalf("%s: the hash list this listener confirms to dialers (SerializedCertHashes = Noise early data) %v does not contain every hash of the address %v that this very listener (running without interruption since %s, %d rollover(s) so far) advertised at %s in %s certificate period: a dialer holding that address cannot complete a connection now",
-						at, ser, ad.hs, ts(m.created), m.rolls, ts(ad.at), what)
-				}
 				w.confirmMissing++
 				if m.rolled {
 					w.label("confirm-missing-without-restart")
@@ -701,117 +567,10 @@ func (w *world) sample(m *mgr, why string) {
 	}
 }
 
-func (w *world) record(m *mgr, ad *advert) {
+func (w *world) record(ad *advert) {
 	k := fmt.Sprintf("%d/%s/%s", ad.idx, ad.kind, ad.hs.key())
-	old, ok := w.adverts[k]
-	if !ok {
-		ad.srcs = map[*mgr]bool{}
-		w.adverts[k], old = ad, ad
-	}
-	old.srcs[m] = true
-}
-
-// learn: a dialer takes the address the listener m advertises at this (quiescent or
-// right-after-construction) instant.
-func (w *world) learn(m *mgr, why string) *learner {
-	cur := w.periods[len(w.periods)-1]
-	at := fmt.Sprintf("%s at %s (%s)", m.name, ts(time.Now()), why)
-	l := &learner{id: len(w.learners), src: m, fromB: m != w.a, at: time.Now(), idx: cur.idx, rot1: cur.na.Add(-skew),
-		srcRolls: m.rolls, addr: decodeAddr(w.rt, at, m.h.AddrComponent()), lastDialQ: -1}
-	w.learners = append(w.learners, l)
-	return l
-}
-
-// dial replays, at the current instant, what a dialer does with the address it learnt
-// (model of the dialer written from the statement):
-//
-//	(1) it accepts the served certificate only if the verifier accepts it against the
-//	    hashes of the dialled address (the REAL verifyRawCerts on virtual time), and
-//	(2) it completes only if the hash list the server sends inside the handshake
-//	    (SerializedCertHashes, which listener.handshake puts into the Noise early data)
-//	    contains every hash of the dialled address.
-//
-// Verdict, from the statement: while the listener the address was learnt from keeps
-// running and serves the period of the learn instant or the following one, the dial must
-// complete. Later than that nothing is promised, except that a certificate whose hash is
-// not in the address is refused. A restarted listener is judged on (1) only; whether it
-// confirms the older hash is recorded as a label.
-func (w *world) dial(l *learner, why string) {
-	rt := w.rt
-	now := time.Now()
-	m, restarted := l.src, false
-	if m.closed {
-		if !l.fromB || w.b == nil {
-			w.label("dial:listener-gone")
-			return
-		}
-		m, restarted = w.b, true
-	}
-	raw, cert, _ := w.served(m)
-	sum := sha256.Sum256(raw)
-	cur := w.periods[len(w.periods)-1]
-	q := cur.idx - l.idx
-	at := fmt.Sprintf("dialer #%d (learnt %v from %s at %s, certificate period %d, %d rollover(s) of that listener earlier) dials %s at %s = learn+%v, certificate period %d (%s)",
-		l.id, l.addr, l.src.name, ts(l.at), l.idx, l.srcRolls, m.name, ts(now), now.Sub(l.at), cur.idx, why)
-
-	pinErr := wt.VerifVerifyRawCerts([][]byte{raw}, []multihash.DecodedMultihash(l.addr))
-	confirmed := decodeSerialized(rt, at, m.h.SerializedCertHashes())
-	var missing hashSet
-	for _, h := range l.addr {
-		if !confirmed.superset(hashSet{h}) {
-			missing = append(missing, h)
-		}
-	}
-	completes := pinErr == nil && len(missing) == 0
-
-	if q >= 2 {
-		// beyond the following period: nothing promised about completing
-		if !l.addr.hasSHA256(sum) && pinErr == nil {
-			rt.Fatalf("%s: the verifier accepts the served certificate sha256=%x although no hash of the dialled address equals it", at, sum[:6])
-		}
-		w.label(fmt.Sprintf("dial:beyond-following-period/completes=%v", completes))
-		return
-	}
-	if pinErr != nil {
-		rt.Fatalf("%s: the address no longer verifies the certificate served now [%s, %s] sha256=%x: %v", at, ts(cert.NotBefore), ts(cert.NotAfter), sum[:6], pinErr)
-	}
-	if restarted {
-		w.label(fmt.Sprintf("dial:restarted-listener/rollovers-since-learn=%d/all-hashes-confirmed=%v", q, len(missing) == 0))
-		return
-	}
-	if len(missing) > 0 {
-		rt.Fatalf("%s: the listener has been running without interruption (created %s, %d rollover(s)), yet the hash list it confirms inside the handshake %v lacks %v of the dialled address: the dial cannot complete although the address was learnt in the %s certificate period",
-			at, ts(m.created), m.rolls, confirmed, missing, map[int]string{0: "current", 1: "previous"}[q])
-	}
-	// evidence
-	w.dialsRunning++
-	if l.lastDialQ != q {
-		l.lastDialQ = q
-		src := "A"
-		if l.fromB {
-			src = "B"
-		}
-		w.label(fmt.Sprintf("dial:running-listener=%s/rollovers-since-learn=%d", src, q))
-	}
-	if q == 1 {
-		w.dialsAcross++
-		if l.srcRolls > 0 {
-			w.label("dial:across-rollover/listener-had-rolled-before-learn")
-		} else {
-			w.label("dial:across-rollover/first-rollover-of-listener")
-		}
-		switch dt := now.Sub(l.at); {
-		case dt <= time.Millisecond:
-			w.label("dial:across-rollover/learn+<=1ms")
-		case dt > period:
-			w.label("dial:across-rollover/learn+>1period")
-		}
-		if d := l.rot1.Add(period).Sub(now); d > 0 && d <= time.Millisecond {
-			w.label("dial:within-1ms-of-end-of-following-period")
-		}
-		if now.Equal(l.rot1) {
-			w.label("dial:exactly-at-rollover-after-learn")
-		}
+	if _, ok := w.adverts[k]; !ok {
+		w.adverts[k] = ad
 	}
 }
 
@@ -820,9 +579,6 @@ func (w *world) sampleAll(why string) {
 	w.sample(w.a, why)
 	if w.b != nil {
 		w.sample(w.b, why)
-	}
-	for _, l := range w.learners {
-		w.dial(l, why)
 	}
 }
 
@@ -892,8 +648,6 @@ func TestTimeline(t *testing.T) {
 					}
 				case "jump":
 					target = now.Add(st.Jump)
-				case "dial":
-					target = w.dialTarget(st.Dial)
 				}
 				if target.Before(now) {
 					target = now
@@ -918,13 +672,6 @@ func TestTimeline(t *testing.T) {
 						w.closeMgr(w.b)
 						w.b = nil
 					}
-				case "learn":
-					m := w.a
-					if st.From == "B" && w.b != nil {
-						m = w.b
-					}
-					w.learn(m, why+" learn")
-					w.sampleAll(why + " after learn") // the first dial: at the learn instant itself
 				case "twin":
 					w.twins++
 					tw := w.newMgr(fmt.Sprintf("twin%d", w.twins))
